@@ -84,12 +84,12 @@ def fs_events(trace, qdir, rn=None):
             d, n = parse_qpath(e["path"], qdir, rn)
             d2, n2 = parse_qpath(e["to"], qdir, rn)
             if d and d2:
-                ev = dict(blank, op="link", d=d, n=n, d2=d2, n2=n2)
+                ev = dict(blank, op="link", d=d, n=n, d2=d2, n2=n2, ino=rn(e["ino"]) if e.get("ino", -1) >= 0 else 0)
         elif c == "rename" and e["res"] == 0:
             d, n = parse_qpath(e["path"], qdir, rn)
             d2, n2 = parse_qpath(e["to"], qdir, rn)
             if d and d2:
-                ev = dict(blank, op="rename", d=d, n=n, d2=d2, n2=n2)
+                ev = dict(blank, op="rename", d=d, n=n, d2=d2, n2=n2, ino=rn(e["ino"]) if e.get("ino", -1) >= 0 else 0)
         elif c == "unlink" and e["res"] == 0:
             d, n = parse_qpath(e["path"], qdir, rn)
             if d:
@@ -102,6 +102,9 @@ def fs_events(trace, qdir, rn=None):
             ev = dict(blank, op="fsync", ino=rn(e["ino"]))
         if ev:
             ev["k"] = e.get("k", 0)
+            role = e.get("r", "")
+            ev["who"] = "queue" if role.endswith("qmail-queue") else "send" if role.endswith("qmail-send") else "clean" if role.endswith("qmail-clean") else "other"
+            ev["t"] = e.get("t", 0)
             out.append(ev)
     return out
 
